@@ -394,7 +394,7 @@ def gen_trusted(rng, tier, n_classes):
                 else:
                     cases.append(dict(base, stream=tag, doc=dd, opts=o, re=gen.re_table(cls, dd)))
         cases.append(dict(base, stream="non-object", doc=rng.choice([None, 1, "s", {"l": []}, {"m": []}]),
-                          opts=rng.choice(OPTS), re=[]))
+                          opts=rng.choice(OPTS), re=gen.re_table(cls)))
     return cases
 
 
